@@ -75,6 +75,12 @@ func branchesReposDecode(b []byte) ([]BranchRepos, error) {
 	}
 
 	l := r.uvarint() // Length
+	// Every entry takes at least one byte of input, so a count larger than what
+	// is left (or negative, after the conversion to int) is malformed. Check
+	// before allocating or looping on it.
+	if l < 0 || l > len(r.b) {
+		return nil, errors.New("malformed BranchRepos")
+	}
 	brs := make([]BranchRepos, l)
 
 	for i := range l {
@@ -166,8 +172,13 @@ func stringSetDecode(b []byte) (map[string]struct{}, error) {
 		return nil, fmt.Errorf("unsupported stringSet encoding version %d", v)
 	}
 
-	// Length
+	// Length. Every element takes at least one byte of input, so a count larger
+	// than what is left (or negative, after the conversion to int) is malformed.
+	// Check before allocating or looping on it.
 	l := r.uvarint()
+	if l < 0 || l > len(r.b) {
+		return nil, errors.New("malformed stringSet")
+	}
 	set := make(map[string]struct{}, l)
 
 	for range l {
@@ -195,7 +206,7 @@ func (b *binaryReader) uvarint() int {
 
 func (b *binaryReader) str() string {
 	l := b.uvarint()
-	if l > len(b.b) {
+	if l < 0 || l > len(b.b) {
 		b.b = nil
 		b.err = errors.New("malformed RepoBranches")
 		return ""
@@ -207,13 +218,17 @@ func (b *binaryReader) str() string {
 
 func (b *binaryReader) bitmap() *roaring.Bitmap {
 	l := b.uvarint()
-	if l > len(b.b) {
+	if l < 0 || l > len(b.b) {
 		b.b = nil
 		b.err = errors.New("malformed BranchRepos")
 		return nil
 	}
 	r := roaring.New()
-	_, b.err = r.FromBuffer(b.b[:l])
+	// Do not overwrite an earlier error with nil: the caller only looks at
+	// b.err after reading everything.
+	if _, err := r.FromBuffer(b.b[:l]); err != nil {
+		b.err = err
+	}
 	b.b = b.b[l:]
 	return r
 }
